@@ -126,10 +126,15 @@ def gen_object(rng, version):
     else:
         alg = rng.choice((CA.AES, CA.TRIPLE_DES, CA.CAMELLIA))
         method = rng.choice(list(E.SplitKeyMethod))
-        secret = secret_split(value, alg, len(value) * 8, rng.choice((1, 2, 5, 255)), rng.choice((1, 2, 5)),
-                              rng.choice((1, 2, 3)), method,
-                              rng.choice((None, 104729, 2 ** 31 - 1, 2 ** 62 - 57)) if method !=
-                              E.SplitKeyMethod.POLYNOMIAL_SHARING_PRIME_FIELD else rng.choice((104729, 2 ** 61 - 1)))
+        # integer fields at every byte-width and sign boundary a storage layer could trip over (a prime field size is a
+        # Big Integer; the server stores it in a signed 64-bit column, so values stay below 2**63)
+        small = (1, 2, 5, 127, 128, 255, 256, 32767, 32768, 65535, 65536, 2 ** 31 - 1)
+        primes = (None, 2, 251, 257, 65521, 65537, 104729, 2 ** 24 - 3, 2 ** 31 - 1, 4294967291, 2 ** 32 + 15, 2 ** 40 - 87,
+                  2 ** 48 - 59, 2 ** 56 - 5, 2 ** 61 - 1, 2 ** 62 - 57, 2 ** 63 - 25)
+        secret = secret_split(value, alg, len(value) * 8, rng.choice(small), rng.choice(small),
+                              rng.choice(small), method,
+                              rng.choice(primes) if method != E.SplitKeyMethod.POLYNOMIAL_SHARING_PRIME_FIELD
+                              else rng.choice(primes[1:]))
         meta.update(alg=alg, length=len(value) * 8)
     attrs = []
     supplied = {}
@@ -138,10 +143,15 @@ def gen_object(rng, version):
                             [M.EXPORT, M.TRANSLATE_ENCRYPT] if hasattr(M, 'TRANSLATE_ENCRYPT') else [M.EXPORT]))
         attrs.append(rig.attr(A.CRYPTOGRAPHIC_USAGE_MASK, masks))
         supplied['Cryptographic Usage Mask'] = 1
+    # attribute indices as clients send them: counted up, left out, or 0 on every instance (what ProxyKmipClient.register
+    # does); in each style the instances are owed back in the order they were supplied
+    style = rng.choice(('up', 'up', 'none', 'zero'))
+    meta['index_style'] = style
+    ix = (lambda i: i) if style == 'up' else ((lambda i: None) if style == 'none' else (lambda i: 0))
     nn = rng.choice((0, 1, 1, 2, 4))
     for i in range(nn):
         nt = rng.choice((E.NameType.UNINTERPRETED_TEXT_STRING, E.NameType.UNINTERPRETED_TEXT_STRING, E.NameType.URI))
-        attrs.append(rig.attr(A.NAME, name_value('nm-%06x' % rng.getrandbits(24), nt), i))
+        attrs.append(rig.attr(A.NAME, name_value('nm-%06x' % rng.getrandbits(24), nt), ix(i)))
     if nn:
         supplied['Name'] = nn
     # group names come from a small pool (objects share groups, in different orders) plus unique ones
@@ -149,7 +159,7 @@ def gen_object(rng, version):
     glist = rng.sample(pool, rng.choice((0, 0, 1, 2, 3)))
     ng = len(glist)
     for i in range(ng):
-        attrs.append(rig.attr(A.OBJECT_GROUP, glist[i], i))
+        attrs.append(rig.attr(A.OBJECT_GROUP, glist[i], ix(i)))
     if ng:
         supplied['Object Group'] = ng
     apool = [('ssl', 'www.example.com'), ('ldap', 'cn=x'), ('ns-%04x' % rng.getrandbits(16), 'data-%04x' % rng.getrandbits(16)),
@@ -158,7 +168,7 @@ def gen_object(rng, version):
     na = len(alist)
     for i in range(na):
         attrs.append(rig.attr(A.APPLICATION_SPECIFIC_INFORMATION,
-                              {'application_namespace': alist[i][0], 'application_data': alist[i][1]}, i))
+                              {'application_namespace': alist[i][0], 'application_data': alist[i][1]}, ix(i)))
     if na:
         supplied['Application Specific Information'] = na
     if version >= (1, 4) and rng.random() < 0.4:
